@@ -348,6 +348,93 @@ def scan_in_dim_like_loops(na, a0, a1, a2, keepdims, tree):
   return ys.shape == SCAN_SHAPE and bool((ys == ref_y).all())
 
 
+def onehot_formula(which):
+  """onehot(labels, n)[..., j] == on if labels[...] == j else off, for every integer
+  label (in range or not), symbolic on / off values (solver obligation on the real
+  function through the symbolic-tensor shim)"""
+  import time as _t
+  from vf import sym, symnp
+  from vf.sym import A, S
+  import z3
+  t0 = _t.time()
+  concrete = sym.CONCRETE['on']
+  q = 0
+  for shape, n in (((2, 2), 3), ((3,), 1), ((1, 2, 1), 4)):
+    lab = A.sym('l', shape, 'int')
+    on, off = sym.scalar('on', 1.0), sym.scalar('off', 0.0)
+    if concrete:
+      import jax.numpy as jnp
+      import numpy as np
+      labv = np.asarray(lab.to_numpy()).astype(int)
+      got = np.asarray(CU.onehot(jnp.asarray(labv), n, sym.to_float(on.t),
+                                 sym.to_float(off.t)))
+      want = np.where(labv[..., None] == np.arange(n), sym.to_float(on.t),
+                      sym.to_float(off.t)).astype(np.float32)
+      if got.shape != want.shape or not np.allclose(got, want):
+        return dict(status='sat', cex=dict(case='onehot %r %d' % (shape, n)))
+      continue
+    saved = (CU.jnp, CU.lax)
+    CU.jnp, CU.lax = symnp.JNP, symnp.LAX
+    try:
+      y = A.of(CU.onehot(lab, n, on, off))
+    finally:
+      CU.jnp, CU.lax = saved
+    if y.shape != tuple(shape) + (n,):
+      return dict(status='sat', cex=dict(case='onehot shape %r %d' % (shape, n)))
+    want = []
+    for idx in itertools.product(*[range(d) for d in shape]):
+      for j in range(n):
+        want.append(S(z3.If(lab.at(idx).t == j, on.t, off.t)))
+    status, model, nq = sym.prove_equal([(y, A(want, y.shape))], [], timeout_ms=60000)
+    q += nq
+    if status != 'unsat':
+      return dict(status='sat' if status == 'sat' else 'unknown', queries=q,
+                  cex=dict(case='onehot %r %d' % (shape, n),
+                           model=sym.model_values(model) if status == 'sat' else {})
+                  if status == 'sat' else None, solver_s=_t.time() - t0,
+                  detail='onehot differs from the definition')
+  return dict(status='unsat', queries=q, solver_s=_t.time() - t0,
+              witness=dict(cases=['onehot 3 shapes'], n=3))
+
+
+def _onehot_run(**kw):
+  r = onehot_formula(0)
+  if r.get('cex') is not None:
+    r['cex'] = dict(r['cex'], family='onehot_formula', arg=0)
+  return r
+
+
+def replay_onehot(case=None, family=None, arg=None, model=None, **kw):
+  from vf import sym
+  try:
+    for seed in range(4):
+      sym.set_concrete(True, model if seed == 0 else None, seed)
+      if onehot_formula(0).get('status') != 'unsat':
+        return False
+    return True
+  finally:
+    sym.set_concrete(False)
+
+
+def stack_forest_rows(n, k, v):
+  """stack_forest: a list of n pytrees with the same structure -> one pytree whose
+  leaves hold the n values in order"""
+  old = CU.np
+
+  class _NP:
+    @staticmethod
+    def stack(items):
+      return ('stacked', tuple(items))
+  CU.np = _NP()
+  try:
+    forest = [{'a': v + i, 'b': {'c': v * 2 - i}} for i in range(n)]
+    out = CU.stack_forest(forest)
+  finally:
+    CU.np = old
+  return out == {'a': ('stacked', tuple(v + i for i in range(n))),
+                 'b': {'c': ('stacked', tuple(v * 2 - i for i in range(n)))}}
+
+
 class Rows:
   """row-list stand-in for shard / unreplicate / stack_forest"""
 
@@ -527,6 +614,12 @@ def obligations(tier):
          bounds='xs [2,3,4] (array or 2-leaf dict), every tuple of 1..3 distinct axes '
                 'from 0,1,2,-1,-2,-3 in every order, keepdims',
          assumes=('lax.scan replaced by its documented loop on numpy arrays',)),
+      Ob('onehot_formula', _onehot_run, dict(which=I(0, 0)), kind='smt',
+         replay=replay_onehot, timeout=300, funcs=qualnames(CU.onehot),
+         bounds='label arrays [2,2], [3], [1,2,1] with 3 / 1 / 4 classes; labels '
+                'are unbounded symbolic ints, on / off symbolic reals'),
+      Ob('stack_forest_rows', stack_forest_rows, dict(n=I(1, 4), k=I(0, 0), v=I(-3, 3)),
+         split=('n',), timeout=120, funcs=qualnames(CU.stack_forest)),
       Ob('invert_perm', invert_perm,
          dict(n=I(0, 4), a=I(0, 3), b=I(0, 3), c=I(0, 3), e=I(0, 3)), timeout=300,
          funcs=qualnames(JU._invert_perm), bounds='all permutations of <=4'),
